@@ -20,6 +20,9 @@ inductive Pred where
   | none
   | traj (final : Int)
   | setb (final : Int)
+  /-- a `SetBasedPrediction` with an empty `occupancy_set`: `final_time_step` = `max(())` raises `ValueError`
+      (excluded by the XSD, which demands at least one occupancy; kept so that the read is a partial one) -/
+  | setbEmpty
   deriving DecidableEq, Repr
 
 inductive Role where
@@ -56,7 +59,36 @@ structure Obst where
   iconType : Bool
   /-- `obstacle_shape` has `length` and `width` -/
   hasLW : Bool
+  /-- `initial_state.orientation` / `.velocity` is an interval -/
+  orientIntInit : Bool := false
+  velIntInit : Bool := false
+  /-- time steps whose trajectory state has an interval as orientation / velocity -/
+  orientIntAt : TSet := ⟨false, []⟩
+  velIntAt : TSet := ⟨false, []⟩
   deriving Repr
+
+/-- What the drawing code reads from a state: is the position a `Shape`, are orientation / velocity intervals. -/
+structure StateInfo where
+  uncPos : Bool
+  orientInt : Bool
+  velInt : Bool
+  deriving DecidableEq, Repr
+
+def Obst.initInfo (o : Obst) : StateInfo := ⟨o.uncInit, o.orientIntInit, o.velIntInit⟩
+def Obst.stateInfo (o : Obst) (t : Int) : StateInfo := ⟨o.uncAt.mem t, o.orientIntAt.mem t, o.velIntAt.mem t⟩
+
+/-- Which point a marker is anchored at: the position array itself, or `position.center` of a shape. -/
+inductive Anchor where
+  | exact | center
+  deriving DecidableEq, Repr
+
+/-- Which number is used for an orientation / velocity: the value itself, or the centre of the interval. -/
+inductive Mid where
+  | exact | mid
+  deriving DecidableEq, Repr
+
+def anchorSel (s : StateInfo) : Anchor := if s.uncPos then .center else .exact
+def midSel (isInterval : Bool) : Mid := if isInterval then .mid else .exact
 
 /-- Parameters read by `draw_dynamic_obstacle` (group `dynamic_obstacle` and its sub-groups). -/
 structure DynFlags where
@@ -74,11 +106,13 @@ structure DynFlags where
   /-- `history` sub-group reads `draw_params.time_begin` of the dynamic-obstacle group: same `tb` -/
   drawInitialState : Bool
   showLabel : Bool
+  /-- `dynamic_obstacle.state.draw_arrow` -/
+  stateArrow : Bool := false
   /-- window and mode of the nested `trajectory` group -/
   trajTb : Int
   trajTe : Int
   trajContinuous : Bool
-  deriving Repr
+  deriving Repr, DecidableEq
 
 /-- Parameters read by `draw_phantom_obstacle`. -/
 structure PhFlags where
@@ -86,7 +120,7 @@ structure PhFlags where
   te : Int
   drawShape : Bool
   drawOccupancies : Bool
-  deriving Repr
+  deriving Repr, DecidableEq
 
 structure Flags where
   dyn : DynFlags
@@ -94,7 +128,7 @@ structure Flags where
   /-- `static_obstacle.time_begin`, `environment_obstacle.time_begin` -/
   tbStatic : Int
   tbEnv : Int
-  deriving Repr
+  deriving Repr, DecidableEq
 
 /-- One entry appended (directly or through `Shape.draw`) to `obstacle_patches` / `dynamic_labels`. -/
 inductive Item where
@@ -108,18 +142,18 @@ inductive Item where
   | hist (t : Int)
   /-- direction triangle -/
   | dir
-  /-- icon patches -/
-  | icon
+  /-- icon patches, placed at the anchor with the given orientation reading -/
+  | icon (a : Anchor) (r : Mid)
   /-- signal ellipses of the signal state at `time_begin` -/
   | sig
   /-- continuous trajectory line -/
   | trajLine
   /-- uncertain position of a trajectory state drawn by `draw_trajectory` -/
   | uncTraj (t : Int)
-  /-- label text (goes to `dynamic_labels`) -/
-  | label
-  /-- state marker of `draw_state` -/
-  | state
+  /-- label text (goes to `dynamic_labels`), placed 0.5 right of the anchor -/
+  | label (a : Anchor)
+  /-- state marker of `draw_state`: circle at the anchor, arrow (orientation reading, velocity reading) if asked for -/
+  | state (a : Anchor) (arrow : Option (Mid × Mid))
   deriving DecidableEq, Repr
 
 /-- Python `range(a, b)`. -/
@@ -154,12 +188,14 @@ def Pred.isTraj : Pred → Bool
 
 def Pred.isSet : Pred → Bool
   | .setb _ => true
+  | .setbEmpty => true
   | _ => false
 
 def Pred.final : Pred → Int
   | .none => 0
   | .traj f => f
   | .setb f => f
+  | .setbEmpty => 0
 
 /-- The two early returns of `draw_dynamic_obstacle` (mp_renderer.py:534-543); note Python's precedence
     `A and B or C`. -/
@@ -177,7 +213,10 @@ def histItems (f : DynFlags) (o : Obst) : List Item :=
 def iconBlock (f : DynFlags) (o : Obst) : Bool × Bool × List Item :=
   if f.drawIcon && o.iconType && o.pred.isTraj then
     if o.hasLW then
-      (false, true, if f.tb = o.initTs || o.stateAt.mem f.tb then [Item.icon] else [])
+      (false, true, if f.tb = o.initTs then [Item.icon (anchorSel o.initInfo) (midSel o.initInfo.orientInt)]
+                    else if o.stateAt.mem f.tb then
+                      [Item.icon (anchorSel (o.stateInfo f.tb)) (midSel (o.stateInfo f.tb).orientInt)]
+                    else [])
     else (true, false, [])
   else if f.drawIcon then (true, true, [])
   else (f.drawShape, false, [])
@@ -191,8 +230,13 @@ def trajItems (f : DynFlags) (o : Obst) : List Item :=
   (ts.filter (fun t => o.uncAt.mem t)).map Item.uncTraj
 
 /-- `state` of lines 622-627: the initial state if `time_begin == 0`, else the trajectory state. -/
-def labelState (f : DynFlags) (o : Obst) : Bool :=
-  if f.tb = 0 then true else (o.pred.isTraj && o.stateAt.mem f.tb)
+def labelState (f : DynFlags) (o : Obst) : Option StateInfo :=
+  if f.tb = 0 then some o.initInfo
+  else if o.pred.isTraj && o.stateAt.mem f.tb then some (o.stateInfo f.tb) else none
+
+/-- `draw_state` (866-911): circle at the (centre of the) position, arrow for the (centre of the) orientation and velocity. -/
+def stateItem (f : DynFlags) (s : StateInfo) : Item :=
+  Item.state (anchorSel s) (if f.stateArrow then some (midSel s.orientInt, midSel s.velInt) else none)
 
 /-- `draw_dynamic_obstacle` (mp_renderer.py:505-643). -/
 def drawDynamic (f : DynFlags) (o : Obst) : List Item :=
@@ -214,8 +258,10 @@ def drawDynamic (f : DynFlags) (o : Obst) : List Item :=
                  (if o.pred.isTraj && o.stateAt.mem t && o.uncAt.mem t then [Item.uncState t] else []))
    else []) ++
   (if f.drawTrajectory && o.pred.isTraj then trajItems f o else []) ++
-  (if f.showLabel && labelState f o then [Item.label] else []) ++
-  (if f.drawInitialState && labelState f o then [Item.state] else [])
+  (match labelState f o with
+   | some s => (if f.showLabel then [Item.label (anchorSel s)] else []) ++
+               (if f.drawInitialState then [stateItem f s] else [])
+   | none => [])
 
 /-- Dispatch of `draw_scenario` (464-472). -/
 def drawObstacle (f : Flags) (o : Obst) : List Item :=
@@ -239,5 +285,223 @@ def laneletsDrawn (ids : List Int) (drawIds : Option (List Int)) : List Int :=
 /-- `draw_planning_problem_set`: `if draw_ids is None or pp_id in draw_ids`. -/
 def problemsDrawn (ids : List Int) (drawIds : Option (List Int)) : List Int :=
   ids.filter (fun i => match drawIds with | none => true | some l => l.contains i)
+
+/-! ## The same logic with every partial read made explicit
+
+The functions above say *what* is emitted.  The functions below follow the same code once more but perform every
+read that can fail in Python through a partial primitive, so that "the selection logic never dereferences `None`,
+never indexes a shape, never takes the cosine of an interval, never concatenates nothing" is a statement
+(`CRProps/C19.lean`, `C19_total_selection`) instead of a property of Lean's totality.  matplotlib itself stays outside. -/
+
+/-- `x.attr` / `x.method()` where `x` may be `None`: `AttributeError`. -/
+def deref {α : Type} : Option α → Res α
+  | some a => .ok a
+  | none => .error .attr
+
+/-- `position[0]`: only an array can be indexed; a `Shape` raises `TypeError`. -/
+def indexXY (isShape : Bool) : Res Unit := if isShape then .error .type else .ok ()
+
+/-- `position.center`: only a `Shape` has it; an array raises `AttributeError`. -/
+def centerOf (isShape : Bool) : Res Unit := if isShape then .ok () else .error .attr
+
+/-- `math.cos(x)`, `max(x, 3.0 / s) * cos * s` as `FancyArrow` length, rotation matrix of an icon: `x` must be a number;
+    an `Interval` raises `TypeError`. -/
+def realArg (isInterval : Bool) : Res Unit := if isInterval then .error .type else .ok ()
+
+/-- `np.concatenate(list)`: `ValueError` on an empty list. -/
+def npConcatenate (n : Nat) : Res Unit := if n = 0 then .error .value else .ok ()
+
+/-- `position[0]` without the `is_uncertain_position` test (the code before the repair). -/
+def anchorUnguarded (s : StateInfo) : Res Anchor := do indexXY s.uncPos; pure .exact
+
+/-- `position = state.position.center if state.is_uncertain_position else state.position; position[0], position[1]`
+    (mp_renderer.py label 636, icon 570-572, draw_state 882). -/
+def anchorC (s : StateInfo) : Res Anchor :=
+  if s.uncPos then do centerOf s.uncPos; indexXY false; pure .center
+  else do indexXY s.uncPos; pure .exact
+
+/-- `x = 0.5 * (x.start + x.end) if isinstance(x, Interval) else x; math.cos(x)` (draw_state 888-896, icon 573-575). -/
+def midC (isInterval : Bool) : Res Mid :=
+  if isInterval then do realArg false; pure .mid
+  else do realArg isInterval; pure .exact
+
+/-- `obj.occupancy_at_time(t)`: `None` or an occupancy (of which the code later asks `isinstance(shape, Rectangle)`). -/
+def occAtC (o : Obst) (t : Int) : Option Bool := if o.occ.mem t then some (o.rectAt.mem t) else none
+
+/-- `obj.prediction.final_time_step` -/
+def Pred.finalC : Pred → Res Int
+  | .none => .error .attr
+  | .traj f => .ok f
+  | .setb f => .ok f
+  | .setbEmpty => .error .value
+
+/-- `obj.prediction.trajectory.state_at_time_step(t)`: only a `TrajectoryPrediction` has a trajectory. -/
+def trajStateC (o : Obst) (t : Int) : Res (Option StateInfo) :=
+  if o.pred.isTraj then .ok (if o.stateAt.mem t then some (o.stateInfo t) else none) else .error .attr
+
+/-- lines 534-543 with Python's short-circuit evaluation: `prediction.final_time_step` is read only behind
+    `prediction is not None`. -/
+def dynHiddenC (f : DynFlags) (o : Obst) : Res Bool :=
+  if (o.pred.isNone && decide (o.initTs < f.tb)) || decide (o.initTs > f.te) then pure true
+  else do
+    let c ← (if !o.pred.isNone then do let fin ← o.pred.finalC; pure (decide (fin < f.tb)) else pure false)
+    pure (c || decide (o.initTs > f.te))
+
+def iconBlockC (f : DynFlags) (o : Obst) : Res (Bool × Bool × List Item) :=
+  if f.drawIcon && o.iconType && o.pred.isTraj then
+    if o.hasLW then do
+      let st ← (if f.tb = o.initTs then pure (some o.initInfo) else trajStateC o f.tb)
+      match st with
+      | some s => do
+        let a ← anchorC s
+        let r ← midC s.orientInt
+        pure (false, true, [Item.icon a r])
+      | none => pure (false, true, [])
+    else pure (true, false, [])
+  else if f.drawIcon then pure (true, true, [])
+  else pure (f.drawShape, false, [])
+
+/-- lines 622-627 -/
+def labelStateC (f : DynFlags) (o : Obst) : Res (Option StateInfo) :=
+  if f.tb = 0 then pure (some o.initInfo)
+  else if o.pred.isTraj then trajStateC o f.tb else pure none
+
+def stateItemC (f : DynFlags) (s : StateInfo) : Res Item := do
+  let a ← anchorC s
+  if f.stateArrow then do
+    let r ← midC s.orientInt
+    let v ← midC s.velInt
+    pure (Item.state a (some (r, v)))
+  else pure (Item.state a none)
+
+/-- the loop of lines 611-616: `state_at_time_step` only for a `TrajectoryPrediction`; `occ`/`state` may be `None`
+    and are tested inside `_draw_occupancy`. -/
+def occLoopC (o : Obst) : List Int → Res (List Item)
+  | [] => pure []
+  | t :: ts => do
+    let st ← (if o.pred.isTraj then trajStateC o t else pure none)
+    let rest ← occLoopC o ts
+    pure ((match occAtC o t with | some _ => [Item.occ t] | none => []) ++
+          (match st with | some s => if s.uncPos then [Item.uncState t] else [] | none => []) ++ rest)
+
+/-- `draw_dynamic_obstacle` with explicit partial reads. -/
+def drawDynamicC (f : DynFlags) (o : Obst) : Res (List Item) := do
+  if ← dynHiddenC f o then pure [] else
+  let (shape, icon, iconItems) ← iconBlockC f o
+  let shapeItems : List Item :=
+    if shape then
+      match occAtC o f.tb with
+      | some isRect => occWithInit o f.tb ++ (if f.drawDirection && isRect then [Item.dir] else [])
+      | none => []
+    else []
+  let sigItems : List Item :=
+    if f.drawSignals && (shape || icon) then
+      match occAtC o f.tb with
+      | some _ => if o.sigAt.mem f.tb then [Item.sig] else []
+      | none => []
+    else []
+  let occs ← (if f.drawOccupancies || o.pred.isSet then occLoopC o (pyRange (if shape then f.tb + 1 else f.tb) f.te)
+              else pure [])
+  let st ← labelStateC f o
+  let tail ← (match st with
+    | some s => do
+      let a ← anchorC s
+      let si ← (if f.drawInitialState then do let i ← stateItemC f s; pure [i] else pure [])
+      pure ((if f.showLabel then [Item.label a] else []) ++ si)
+    | none => pure [])
+  pure ((if f.drawHistory && o.pred.isTraj then histItems f o else []) ++ iconItems ++ shapeItems ++ sigItems ++ occs ++
+        (if f.drawTrajectory && o.pred.isTraj then trajItems f o else []) ++ tail)
+
+/-- `draw_environment_obstacle`: `obj.occupancy_at_time(time_begin).draw(...)` — no `None` test in the code. -/
+def drawEnvC (tb : Int) (o : Obst) : Res (List Item) := do
+  let _ ← deref (occAtC o tb)
+  pure [Item.occ tb]
+
+def drawObstacleC (f : Flags) (o : Obst) : Res (List Item) :=
+  match o.role with
+  | .dynamic => drawDynamicC f.dyn o
+  | .static => pure (drawStatic f.tbStatic o)
+  | .env => drawEnvC f.tbEnv o
+  | .phantom => pure (drawPhantom f.ph o)
+
+def drawScenarioC (f : Flags) (os : List Obst) : Res (List (List Item)) := os.mapM (drawObstacleC f)
+
+/-! ### lanelet network: which lanelets are filled, and the border-vertex collections (mp_renderer.py:1047-1124, 1437-1463) -/
+
+structure LaneletInfo where
+  id : Int
+  /-- `lanelet.adj_left is None or not lanelet.adj_left_same_direction` -/
+  leftBorder : Bool
+  deriving Repr
+
+structure NetFlags where
+  drawIds : Option (List Int)
+  borderVertices : Bool
+  leftBound : Bool
+  rightBound : Bool
+  deriving Repr
+
+structure NetOut where
+  /-- lanelets entering the loop body (filled if `fill_lanelet`) -/
+  drawn : List Int
+  /-- number of `EllipseCollection`s appended for the border vertices -/
+  borderCollections : Nat
+  deriving Repr, DecidableEq
+
+def netSelected (f : NetFlags) (ls : List LaneletInfo) : List LaneletInfo :=
+  ls.filter (fun l => match f.drawIds with | none => true | some d => d.contains l.id)
+
+/-- `coordinates_left_border_vertices` / `…right…`: one entry per selected lanelet whose bound is visited. -/
+def leftVerts (f : NetFlags) (ls : List LaneletInfo) : List Int :=
+  if f.borderVertices then ((netSelected f ls).filter (fun l => (f.borderVertices || f.leftBound) && l.leftBorder)).map (·.id)
+  else []
+
+def rightVerts (f : NetFlags) (ls : List LaneletInfo) : List Int :=
+  if f.borderVertices then ((netSelected f ls).filter (fun _ => f.borderVertices || f.rightBound)).map (·.id) else []
+
+/-- `if draw_border_vertices and len(coordinates) > 0: np.concatenate(coordinates); append(EllipseCollection)` twice. -/
+def drawNetC (f : NetFlags) (ls : List LaneletInfo) : Res NetOut := do
+  let l := leftVerts f ls
+  let r := rightVerts f ls
+  let n1 ← (if f.borderVertices && !l.isEmpty then do npConcatenate l.length; pure 1 else pure 0)
+  let n2 ← (if f.borderVertices && !r.isEmpty then do npConcatenate r.length; pure 1 else pure 0)
+  pure { drawn := (netSelected f ls).map (·.id), borderCollections := n1 + n2 }
+
+/-- The same without the `len(...) > 0` tests (the code before the repair): for documentation of the defect. -/
+def drawNetUnguarded (f : NetFlags) (ls : List LaneletInfo) : Res NetOut := do
+  let l := leftVerts f ls
+  let r := rightVerts f ls
+  let n1 ← (if f.borderVertices then do npConcatenate l.length; pure 1 else pure 0)
+  let n2 ← (if f.borderVertices then do npConcatenate r.length; pure 1 else pure 0)
+  pure { drawn := (netSelected f ls).map (·.id), borderCollections := n1 + n2 }
+
+/-! ### traffic-light labels (traffic_sign.py create_img_boxes_traffic_lights 509-531) -/
+
+structure LightInfo where
+  hasPosition : Bool
+  active : Bool
+  /-- `traffic_light.get_state_at_time_step(time_begin).value` (opaque) -/
+  state : String
+  deriving Repr
+
+/-- The loop over the traffic lights with its local variable `state` (`var`: unbound = `none`, it survives from
+    one iteration to the next).  `assignInactive = true` is the code as it is: both branches assign `state`
+    (`active`: the cycle state; otherwise `TrafficLightState.INACTIVE`); `false` is the code before the repair,
+    where the inactive branch did not.  Reading an unbound local is `UnboundLocalError`.
+    Result: the label texts of the lights that have a position, in order, if `show_label`. -/
+def lightLabelsGo (showLabel assignInactive : Bool) : Option String → List LightInfo → Res (List String)
+  | _, [] => pure []
+  | var, l :: ls =>
+    if !l.hasPosition then lightLabelsGo showLabel assignInactive var ls else
+    let var' := if l.active then some l.state else if assignInactive then some "inactive" else var
+    if showLabel then
+      match var' with
+      | some s => do
+        let rest ← lightLabelsGo showLabel assignInactive var' ls
+        pure (s :: rest)
+      | none => .error .other
+    else lightLabelsGo showLabel assignInactive var' ls
+
+def lightLabelsC (showLabel : Bool) (ls : List LightInfo) : Res (List String) := lightLabelsGo showLabel true none ls
 
 end CR.Draw
